@@ -609,104 +609,3 @@ Proof.
     apply (NDk _ ekey). apply (ssorted_NoDup ekey ecmp order_ecmp). apply (wf_expires_sorted c W).
 Qed.
 
-(* ------------------------------------------------------------------ *)
-(* Bounds                                                               *)
-Definition retr_spatial (c : coll) (o : obj) : Prop :=
-  cget c (o_id o) = Some o /\ o_spatial o = true /\ o_empty o = false.
-
-Lemma retr_spatial_entry c : Wf c -> forall o, retr_spatial c o <-> In (rtree_item o) (c_spatial c).
-Proof.
-  intros W o. rewrite (wf_spatial c W). cbn. unfold retr_spatial, in_spatial.
-  rewrite (retrievable_iff c W). split.
-  - intros (H1 & H2 & H3). rewrite H2, H3. auto.
-  - intros (H1 & H2 & _). apply andb_true_iff in H2. destruct H2 as [H2 H3].
-    destruct (o_empty o); try discriminate. auto.
-Qed.
-
-Lemma bounds_min_side c sel32 sel64 v : Wf c ->
-  bounds_side_ok is_min32 sel32 sel64 (c_spatial c) v = true ->
-  exists o, retr_spatial c o /\ f64_same (sel64 (o_rect o)) v = true /\
-    forall o', retr_spatial c o' ->
-      lt32 (sel32 (rtree_rect (o_rect o'))) (sel32 (rtree_rect (o_rect o))) = false.
-Proof.
-  intros W H. unfold bounds_side_ok in H. apply existsb_exists in H. destruct H as [e [He H]].
-  apply andb_true_iff in H. destruct H as [Hmin Hsame].
-  pose proof (proj1 (wf_spatial c W e) He) as (Ho & Hs & Hitem).
-  exists (snd e). split; [|split; auto].
-  - apply (retr_spatial_entry c W). rewrite <- Hitem. exact He.
-  - intros o' Ho'. apply (retr_spatial_entry c W) in Ho'.
-    unfold is_min32 in Hmin. rewrite forallb_forall in Hmin. specialize (Hmin _ Ho').
-    rewrite Hitem in Hmin. cbn in Hmin. destruct (lt32 _ _); auto; discriminate.
-Qed.
-
-Lemma bounds_max_side c sel32 sel64 v : Wf c ->
-  bounds_side_ok is_max32 sel32 sel64 (c_spatial c) v = true ->
-  exists o, retr_spatial c o /\ f64_same (sel64 (o_rect o)) v = true /\
-    forall o', retr_spatial c o' ->
-      lt32 (sel32 (rtree_rect (o_rect o))) (sel32 (rtree_rect (o_rect o'))) = false.
-Proof.
-  intros W H. unfold bounds_side_ok in H. apply existsb_exists in H. destruct H as [e [He H]].
-  apply andb_true_iff in H. destruct H as [Hmin Hsame].
-  pose proof (proj1 (wf_spatial c W e) He) as (Ho & Hs & Hitem).
-  exists (snd e). split; [|split; auto].
-  - apply (retr_spatial_entry c W). rewrite <- Hitem. exact He.
-  - intros o' Ho'. apply (retr_spatial_entry c W) in Ho'.
-    unfold is_max32 in Hmin. rewrite forallb_forall in Hmin. specialize (Hmin _ Ho').
-    rewrite Hitem in Hmin. cbn in Hmin. destruct (lt32 _ _); auto; discriminate.
-Qed.
-
-(* what Bounds does guarantee: every reported side is the exact coordinate of a retrievable,
-   spatial, non-empty object whose float32 index key is extreme among all such objects *)
-Definition bounds_spec_partial (c : coll) (b : rect64) : Prop :=
-  (exists o, retr_spatial c o /\ f64_same (r64_minx (o_rect o)) (r64_minx b) = true /\
-     forall o', retr_spatial c o' -> lt32 (down (r64_minx (o_rect o'))) (down (r64_minx (o_rect o))) = false) /\
-  (exists o, retr_spatial c o /\ f64_same (r64_miny (o_rect o)) (r64_miny b) = true /\
-     forall o', retr_spatial c o' -> lt32 (down (r64_miny (o_rect o'))) (down (r64_miny (o_rect o))) = false) /\
-  (exists o, retr_spatial c o /\ f64_same (r64_maxx (o_rect o)) (r64_maxx b) = true /\
-     forall o', retr_spatial c o' -> lt32 (up (r64_maxx (o_rect o))) (up (r64_maxx (o_rect o'))) = false) /\
-  (exists o, retr_spatial c o /\ f64_same (r64_maxy (o_rect o)) (r64_maxy b) = true /\
-     forall o', retr_spatial c o' -> lt32 (up (r64_maxy (o_rect o))) (up (r64_maxy (o_rect o'))) = false).
-
-Lemma bounds_partial c b : Wf c -> c_spatial c <> [] -> bounds_ok c b = true -> bounds_spec_partial c b.
-Proof.
-  intros W Hne H. unfold bounds_ok in H.
-  destruct (c_spatial c) as [|e0 sp0] eqn:E; [congruence|]. rewrite <- E in H.
-  apply andb_true_iff in H. destruct H as [H H4].
-  apply andb_true_iff in H. destruct H as [H H3].
-  apply andb_true_iff in H. destruct H as [H1 H2].
-  repeat split.
-  - exact (bounds_min_side c r32_minx r64_minx _ W H1).
-  - exact (bounds_min_side c r32_miny r64_miny _ W H2).
-  - exact (bounds_max_side c r32_maxx r64_maxx _ W H3).
-  - exact (bounds_max_side c r32_maxy r64_maxy _ W H4).
-Qed.
-
-Lemma bounds_empty c b : c_spatial c = [] -> bounds_ok c b = true ->
-  f64_same (r64_minx b) zero64 = true /\ f64_same (r64_miny b) zero64 = true /\
-  f64_same (r64_maxx b) zero64 = true /\ f64_same (r64_maxy b) zero64 = true.
-Proof.
-  intros E H. unfold bounds_ok in H. rewrite E in H.
-  repeat (apply andb_true_iff in H; destruct H as [H ?]). auto.
-Qed.
-
-(* F12: points at lon 100.000002 (p1) and 100.000001 (p2), lat 1: both longitudes round up to the
-   same float32, so the R-tree may return p2 as its right-most entry and BOUNDS then reports
-   max lon 100.000001 < 100.000002. *)
-Definition f12_p1 : obj := Obj [112; 49]%N true false 1 18 [] 0
-  (rect64_of_bits 4636737291495373776 4607182418800017408 4636737291495373776 4607182418800017408).
-Definition f12_p2 : obj := Obj [112; 50]%N true false 1 18 [] 0
-  (rect64_of_bits 4636737291425005032 4607182418800017408 4636737291425005032 4607182418800017408).
-Definition f12_coll : coll := run [OSet f12_p1; OSet f12_p2].
-
-Lemma bounds_exact_refuted :
-  exists c b, Wf c /\ bounds_ok c b = true /\ bounds_exact c b = false.
-Proof.
-  exists f12_coll, (o_rect f12_p2). split; [apply wf_run|]. split; vm_compute; reflexivity.
-Qed.
-
-(* non-vacuity of the hypotheses of bounds_partial on that state, with the exact answer *)
-Lemma bounds_nonvacuous :
-  c_spatial f12_coll <> [] /\
-  bounds_ok f12_coll (rect64_of_bits 4636737291425005032 4607182418800017408 4636737291495373776 4607182418800017408) = true /\
-  bounds_exact f12_coll (rect64_of_bits 4636737291425005032 4607182418800017408 4636737291495373776 4607182418800017408) = true.
-Proof. split; [|split]; vm_compute; [discriminate | reflexivity | reflexivity]. Qed.
